@@ -1,5 +1,5 @@
 // Command instrument rewrites a scratch copy of package fox: around every call of a synchronisation primitive
-// (Lock, RLock, TryLock, TryRLock, Unlock, RUnlock, atomic Load, Store, Swap, CompareAndSwap) it inserts the verif yield hooks, so that
+// (Lock, RLock, TryLock, TryRLock, Unlock, RUnlock, atomic Load, Store, Swap, Add, And, Or, CompareAndSwap) it inserts the verif yield hooks, so that
 // the simulator gets a scheduling point at every such operation wherever the code under test places it.
 //
 //	instrument <dir>
@@ -52,7 +52,8 @@ func classify(call *ast.CallExpr) (site, bool) {
 		if n == 0 {
 			return site{"load", sel.X}, true
 		}
-	case "Store", "Swap":
+	case "Store", "Swap", "Add", "And", "Or":
+		// (Add/And/Or with one argument: atomic read-modify-write - or a WaitGroup, where a yield is just as welcome)
 		if n == 1 {
 			return site{"store", sel.X}, true
 		}
